@@ -2769,3 +2769,22 @@ pub mod keylimfx {
         }
     }
 }
+
+// ---------------------------------------------------------------- R-COUNT.rmw
+pub mod countfx {
+    use std::sync::atomic::{AtomicU64, Ordering};
+    pub struct BadMgr { pub writers: AtomicU64, pub multi: bool }
+    impl BadMgr {
+        pub fn new() -> Self { let m = BadMgr { writers: AtomicU64::new(0), multi: false }; m.writers.store(0, Ordering::Relaxed); m }
+        pub fn acquire(&self) { self.writers.fetch_add(1, Ordering::Relaxed); }
+        pub fn bad_release(&self) {
+            if self.multi { self.writers.fetch_sub(1, Ordering::Relaxed); } else { self.writers.store(0, Ordering::Release); }
+        }
+    }
+    pub struct OkMgr { pub writers: AtomicU64 }
+    impl OkMgr {
+        pub fn acquire(&self) { self.writers.fetch_add(1, Ordering::Relaxed); }
+        pub fn ok_release(&self) { self.writers.fetch_sub(1, Ordering::Relaxed); }
+        pub fn live(&self) -> u64 { self.writers.load(Ordering::Relaxed) }
+    }
+}
